@@ -80,22 +80,25 @@ type Ctx struct {
 	From       string   `json:"from,omitempty"`
 	To         string   `json:"to,omitempty"`
 	Via        bool     `json:"via,omitempty"` // kubernetes contexts: build through ConvertKubeEventToBindingContext
+	Op         string   `json:"op,omitempty"`  // flow cases only: "apply" | "delete" of Objects[0] on the cluster (see flow.go)
 }
 
 type Input struct {
 	Version string `json:"version"`          // "v1", "v0", anything else
 	Config  string `json:"config,omitempty"` // when set: a hook config; version, binding name, jqFilter and keepFullObjectsInMemory of the kubernetes contexts come from the REAL loaded config (first kubernetes binding)
 	Ctxs    []Ctx  `json:"ctxs"`
+	Flow    *Flow  `json:"flow,omitempty"` // when set: the contexts come out of the real informer path; Ctxs are cluster operations (flow.go)
 }
 
 // ---- observation ----
 
 type Obs struct {
-	Out     string   `json:"out"`               // the JSON text produced by Json()
-	Crash   string   `json:"crash,omitempty"`   // panic while building/rendering
-	Err     string   `json:"err,omitempty"`     // error returned by applyFilter/Json/LoadAndValidate (the case is then unusable)
-	Reviews []string `json:"reviews,omitempty"` // json.Marshal of the review payload of each context ("" = nil)
-	Eff     *Input   `json:"eff,omitempty"`     // effective input when Config was used
+	Out     string     `json:"out"`               // the JSON text produced by Json()
+	Crash   string     `json:"crash,omitempty"`   // panic while building/rendering
+	Err     string     `json:"err,omitempty"`     // error returned by applyFilter/Json/LoadAndValidate (the case is then unusable)
+	Reviews []string   `json:"reviews,omitempty"` // json.Marshal of the review payload of each context ("" = nil)
+	Eff     *Input     `json:"eff,omitempty"`     // effective input when Config was used
+	Files   []FlowFile `json:"files,omitempty"`   // flow cases: the rendered files in the order they were produced
 }
 
 func deepCopy(v any) any {
@@ -257,6 +260,9 @@ func Run(in Input) (obs Obs) {
 			obs.Crash = fmt.Sprint("panic: ", r)
 		}
 	}()
+	if in.Flow != nil {
+		return runFlow(in)
+	}
 	if in.Config != "" {
 		hc := &config.HookConfig{}
 		if err := hc.LoadAndValidate([]byte(in.Config)); err != nil {
@@ -393,6 +399,9 @@ func coqVersion(v string) string {
 }
 
 func Render(in Input, obs *Obs, crash string) core.Case {
+	if in.Flow != nil {
+		return renderFlow(in, obs, crash)
+	}
 	c := core.Case{}
 	out := "None"
 	var observed any
@@ -424,7 +433,7 @@ func Render(in Input, obs *Obs, crash string) core.Case {
 		}
 		parts = append(parts, coqCtx(cx, review))
 	}
-	c.Coq = fmt.Sprintf("(%s,\n  [%s],\n  %s)", coqVersion(in.Version), strings.Join(parts, ";\n   "), out)
+	c.Coq = fmt.Sprintf("CList %s\n  [%s]\n  %s", coqVersion(in.Version), strings.Join(parts, ";\n   "), out)
 	c.JSON = observed
 	kb, _ := json.Marshal(in)
 	c.Key = string(kb)
@@ -552,6 +561,9 @@ func fillOracle(ins []core.In[Input]) error {
 		}
 	}
 	for k := range ins {
+		if ins[k].Input.Flow != nil {
+			visit(ins[k].Input.Flow.Initial)
+		}
 		for c := range ins[k].Input.Ctxs {
 			cx := &ins[k].Input.Ctxs[c]
 			visit(cx.Objects)
@@ -837,6 +849,9 @@ func hasTrigger(in Input) bool {
 		}
 		return false
 	}
+	if in.Flow != nil && chk(in.Flow.Initial) {
+		return true
+	}
 	for _, c := range in.Ctxs {
 		if chk(c.Objects) {
 			return true
@@ -870,7 +885,7 @@ func Corpus() []core.In[Input] {
 		return Item{Raw: true, Obj: pod("pod-qwe", nil, 1), Filter: ".spec", Fres: "str", FresStr: fres}
 	}
 	legacyNoJq := Item{Raw: true, Obj: pod("pod-qwe", nil, 1), Fres: "str", FresStr: `{"spec":"asd"}`}
-	return []core.In[Input]{
+	cases := []core.In[Input]{
 		// F3 (repaired): real applyFilter result -> ObjectAndFilterResult -> BindingContext -> Json():
 		// filterResult was always null because Map() wanted a string and applyFilter stores a map
 		mk("corpus", Input{Version: "v1", Ctxs: []Ctx{event(".metadata.labels", true, pod("pod-321d12", lbl, 1))}}),
@@ -901,6 +916,7 @@ func Corpus() []core.In[Input] {
 		// F8 (recorded finding of C08): a scalar jq result is stored as {}
 		mk("trigger", Input{Version: "v1", Ctxs: []Ctx{event(".spec.replicas", true, pod("p", lbl, 3))}}),
 	}
+	return append(cases, flowCorpus()...)
 }
 
 func Gen(r *core.Rng, tier string) ([]core.In[Input], bool) {
@@ -927,6 +943,24 @@ func Gen(r *core.Rng, tier string) ([]core.In[Input], bool) {
 			in, st := g.input(v0, nctx, 0, 0)
 			ins = append(ins, core.In[Input]{Input: in, Stream: st})
 		}
+	}
+	// flow cases: the contexts come out of the real informer path (see flow.go)
+	nflow := 110
+	switch tier {
+	case "thorough":
+		nflow = 3000
+	case "search":
+		nflow = 900
+	}
+	for i := 0; i < nflow; i++ {
+		triggerPct := 0
+		if i%10 == 9 {
+			triggerPct = 60
+		}
+		ins = append(ins, core.In[Input]{Input: g.flow(triggerPct), Stream: "flow"})
+	}
+	if tier == "thorough" || tier == "search" {
+		ins = append(ins, flowExhaustive()...)
 	}
 	if tier == "thorough" || tier == "search" {
 		// every documented kind x jqFilter {unset, object-valued, scalar} x keepFullObjectsInMemory x
@@ -962,7 +996,7 @@ func Gen(r *core.Rng, tier string) ([]core.In[Input], bool) {
 		panic("jq oracle: " + err.Error())
 	}
 	for i := range ins {
-		if ins[i].Stream == "random" && hasTrigger(ins[i].Input) {
+		if (ins[i].Stream == "random" || ins[i].Stream == "flow") && hasTrigger(ins[i].Input) {
 			ins[i].Stream = "trigger"
 		}
 	}
